@@ -415,10 +415,12 @@ func PutInsertStatement(stmt *InsertStatement) {
 		stmt.Values[i] = stmt.Values[i][:0]
 	}
 
-	// Reset slices but keep capacity
-	stmt.Columns = stmt.Columns[:0]
-	stmt.Values = stmt.Values[:0]
-	stmt.TableName = ""
+	// Reset slices but keep capacity; clear every other field (WITH, query,
+	// RETURNING, ON CONFLICT, ON DUPLICATE KEY)
+	*stmt = InsertStatement{
+		Columns: stmt.Columns[:0],
+		Values:  stmt.Values[:0],
+	}
 
 	// Return to pool
 	insertStmtPool.Put(stmt)
@@ -444,10 +446,10 @@ func PutUpdateStatement(stmt *UpdateStatement) {
 	}
 	PutExpression(stmt.Where)
 
-	// Reset fields
-	stmt.Assignments = stmt.Assignments[:0]
-	stmt.Where = nil
-	stmt.TableName = ""
+	// Reset fields (including WITH, alias, FROM and RETURNING)
+	*stmt = UpdateStatement{
+		Assignments: stmt.Assignments[:0],
+	}
 
 	// Return to pool
 	updateStmtPool.Put(stmt)
@@ -467,9 +469,8 @@ func PutDeleteStatement(stmt *DeleteStatement) {
 	// Clean up expressions
 	PutExpression(stmt.Where)
 
-	// Reset fields
-	stmt.Where = nil
-	stmt.TableName = ""
+	// Reset fields (including WITH, alias, USING and RETURNING)
+	*stmt = DeleteStatement{}
 
 	// Return to pool
 	deleteStmtPool.Put(stmt)
@@ -553,12 +554,12 @@ func PutSelectStatement(stmt *SelectStatement) {
 	}
 	stmt.OrderBy = stmt.OrderBy[:0]
 
-	stmt.TableName = ""
-	stmt.Where = nil
-	stmt.Limit = nil
-	stmt.Offset = nil
-	stmt.Fetch = nil
-	stmt.For = nil
+	// Clear every other field as well (WITH, DISTINCT, FROM, JOINs, GROUP BY,
+	// HAVING, windows, ...) so the next holder never sees this query's clauses
+	*stmt = SelectStatement{
+		Columns: stmt.Columns[:0],
+		OrderBy: stmt.OrderBy[:0],
+	}
 
 	// Return to pool
 	selectStmtPool.Put(stmt)
@@ -575,6 +576,7 @@ func PutIdentifier(ident *Identifier) {
 		return
 	}
 	ident.Name = ""
+	ident.Table = ""
 	identifierPool.Put(ident)
 }
 
@@ -593,6 +595,8 @@ func PutBinaryExpression(expr *BinaryExpression) {
 	expr.Left = nil
 	expr.Right = nil
 	expr.Operator = ""
+	expr.Not = false
+	expr.CustomOp = nil
 	binaryExprPool.Put(expr)
 }
 
@@ -730,6 +734,7 @@ func PutExpression(expr Expression) {
 		switch e := current.(type) {
 		case *Identifier:
 			e.Name = ""
+			e.Table = ""
 			identifierPool.Put(e)
 
 		case *BinaryExpression:
@@ -742,6 +747,8 @@ func PutExpression(expr Expression) {
 			e.Left = nil
 			e.Right = nil
 			e.Operator = ""
+			e.Not = false
+			e.CustomOp = nil
 			binaryExprPool.Put(e)
 
 		case *LiteralValue:
@@ -761,6 +768,8 @@ func PutExpression(expr Expression) {
 			e.Over = nil
 			e.Distinct = false
 			e.Filter = nil
+			e.OrderBy = nil
+			e.WithinGroup = nil
 			functionCallPool.Put(e)
 
 		case *CaseExpression:
@@ -990,6 +999,8 @@ func PutFunctionCall(fc *FunctionCall) {
 	fc.Over = nil
 	fc.Distinct = false
 	fc.Filter = nil
+	fc.OrderBy = nil
+	fc.WithinGroup = nil
 	functionCallPool.Put(fc)
 }
 
